@@ -77,3 +77,17 @@ package fiber
 //@   modifies c.baseURI
 //@   ensures scheme-host: result == scheme(c, epoch) + "://" + host(c, epoch)
 //@   ensures cache-wf: c.baseURI == scheme(c, epoch) + "://" + host(c, epoch)
+
+// New() feeds every configured proxy entry to handleTrustedProxy: a bare address becomes a member of
+// the address set (only), a CIDR entry becomes one more range (only).
+//@ func (*App).handleTrustedProxy
+//@   props C10
+//@   requires ips-made: app.config.TrustProxyConfig.ips != nil
+//@   ensures listed-address: !strContains(ipAddress, "/") && parseIPok(ipAddress) ==> indom(app.config.TrustProxyConfig.ips, ipAddress)
+//@   ensures address-adds-no-range: !strContains(ipAddress, "/") ==> app.config.TrustProxyConfig.ranges == old(app.config.TrustProxyConfig.ranges)
+//@   ensures address-adds-only-itself: forallS(k, k != ipAddress ==> (indom(app.config.TrustProxyConfig.ips, k) <==> old(indom(app.config.TrustProxyConfig.ips, k))))
+//@   ensures unparsable-adds-nothing: !strContains(ipAddress, "/") && !parseIPok(ipAddress) ==> (indom(app.config.TrustProxyConfig.ips, ipAddress) <==> old(indom(app.config.TrustProxyConfig.ips, ipAddress)))
+//@   ensures range-appended: strContains(ipAddress, "/") && cidrOK(ipAddress) ==> len(app.config.TrustProxyConfig.ranges) == old(len(app.config.TrustProxyConfig.ranges)) + 1 &&
+//@ ..   app.config.TrustProxyConfig.ranges[old(len(app.config.TrustProxyConfig.ranges))] == cidrNet(ipAddress)
+//@   ensures ranges-kept: forall(k, 0, old(len(app.config.TrustProxyConfig.ranges)), app.config.TrustProxyConfig.ranges[k] == old(app.config.TrustProxyConfig.ranges[k]))
+//@   ensures bad-range-adds-nothing: strContains(ipAddress, "/") && !cidrOK(ipAddress) ==> app.config.TrustProxyConfig.ranges == old(app.config.TrustProxyConfig.ranges)
